@@ -226,11 +226,12 @@ class PartialModel:
             return v_old if v_new is None else v_new
 
         # list -> new one must also be a list -> concatenate
-        if isinstance(v_old, list):
+        # (otherwise, e.g. for untyped extra fields: opaque values, see below)
+        if isinstance(v_old, list) and isinstance(v_new, list):
             return v_old + v_new
 
         # set -> new one must also be a set -> set union
-        if isinstance(v_old, set):
+        if isinstance(v_old, set) and isinstance(v_new, (set, frozenset)):
             # NOTE: we could try being smarter for sets of partial models
             # https://github.com/Materials-Data-Science-and-Informatics/metador-core/issues/20
             return v_old.union(v_new)  # set union
